@@ -5,6 +5,7 @@ field of the record it is and which leaf function was applied to it — for all 
 -/
 import Alos2.Model.Transform
 import Alos2.Model.Transform2
+import Alos2.Model.Leader
 
 namespace Alos2
 
@@ -189,6 +190,7 @@ def Sym.eval (v : Val) : Sym → Leaf
   | .app _ a => a.eval v
   | .app2 "composite_datetime" a b => realLeafFns2.compositeDatetime (a.eval v) (b.eval v)
   | .app2 "attitude_time" a b => realLeafFns2.attitudeTime (a.eval v) (b.eval v)
+  | .app2 "fix_attitude_time" a b => realLeafFns3.fixTime (a.eval v) (b.eval v)
   | .app2 _ a _ => a.eval v
 
 mutual
@@ -213,6 +215,21 @@ def Con.skelFields : List (String × Con) → List String → List (String × PV
     | none => none
     | some s => Con.skelFields rest p (kvSet acc name s)
 end
+
+/-- prefix every path of a symbolic leaf -/
+def preS (p : List String) : Sym → Sym
+  | .path q => .path (p ++ q)
+  | .app f a => .app f (preS p a)
+  | .app2 f a b => .app2 f (preS p a) (preS p b)
+
+/-- leaf functions of `Model/Leader.lean` on symbolic leaves -/
+def symLeafFns3 (ρ : String → Sym → Bool) (δ : Sym → Desig) : LeafFns3 Sym where
+  toLeafFns2 := symLeafFns2 ρ δ
+  fixTime := Sym.app2 "fix_attitude_time"
+
+structure Compat3 {α β : Type} (f : α → β) (lf : LeafFns3 α) (lf' : LeafFns3 β) : Prop
+    extends Compat2 f lf.toLeafFns2 lf'.toLeafFns2 where
+  fixTime : ∀ a b, f (lf.fixTime a b) = lf'.fixTime (f a) (f b)
 
 /-- the record paths a symbolic leaf mentions -/
 def Sym.paths : Sym → List (List String)
